@@ -25,6 +25,13 @@ fn cfg_for(case: u64, slow: bool) -> GenCfg {
             cfg.max_items = 16;
         }
         1 => cfg.inline_pct = 55,
+        2 => {
+            // few classes with many by-params entries in mixed (name, params) order
+            cfg.min_blocks = 1;
+            cfg.max_blocks = if slow { 2 } else { 3 };
+            cfg.max_items = if slow { 10 } else { 64 };
+            cfg.inline_pct = 10;
+        }
         _ => {}
     }
     cfg
@@ -40,6 +47,9 @@ pub fn run(ctx: &Ctx, rep: &mut Reporter) {
         }
         let model = Model::new(&ast);
         let names = names_of(&ast);
+        if model.blocks.values().any(|b| Model::params_entries(b).len() > 20) {
+            rep.count("asts_with_class_having_more_than_20_by_params_entries", 1);
+        }
         let vars = variants(&ast, &mut rng, ctx.tier == Tier::Thorough && case_idx % 8 == 0, true);
         rep.count("asts", 1);
         for var in &vars {
@@ -88,6 +98,9 @@ fn check_variant(text: &[u8], vname: &str, model: &Model<'_>, names: &Names, rep
         if !exp.is_empty() {
             rep.distinct(q_fp(base, c, me, 0, false, Some(p)));
             rep.count("nonempty_expected", 1);
+            if exp.len() >= 2 {
+                rep.count("answers_with_ge2_frames", 1);
+            }
         }
         for which in 0..2 {
             if which == 0 {
